@@ -74,7 +74,7 @@ def run_deferred(deferred, report):
                 k, (kind, val) = json.loads(line)
                 bad = report(deferred[k], kind, val)
                 i = k + 1
-                if bad and kind == 'ok':
+                if bad:          # the kernel ran before the outcome was produced: memory may be corrupted
                     restart = True
                     break
         try:
@@ -95,6 +95,15 @@ class Case:
 
     def v(self, sig, **detail):
         self.viol.append((sig, detail))
+
+
+ND_SIG = 'ml_nonzero_nd mismatch firstcols-differ'
+
+
+def nd_suspect(Sx):
+    """The structure is enumerated by the n-level routine and its levels' first nonzeros are in different
+    columns: nonzero() is then wrong (the signature above), and so is everything computed from it."""
+    return Sx.L >= 4 and any(int(Sx.bidx[k][0][1]) != int(Sx.bidx[0][0][1]) for k in range(1, Sx.L))
 
 
 def shape_class(bs):
@@ -141,7 +150,8 @@ def check_case(c, out):
                   error=repr(ex))
             continue
         if got != exp:
-            out.v('MLStructure.nonzero mismatch path=%s %s' % (path, firstcols), input=inp, lower_tri=lw,
+            out.v(('ml_nonzero_nd mismatch %s' % firstcols) if path == 'nd' else
+                  ('MLStructure.nonzero mismatch path=%s' % path), input=inp, lower_tri=lw, via='MLStructure.nonzero',
                   expected=exp, got=got, nnz=len(c['nz0']))
         # the generic n-level routine is reachable through nonzero() only for L >= 4; it is written for any L
         if 2 <= L <= 3 and hasattr(mlmatrix, 'ml_nonzero_nd'):
@@ -150,8 +160,8 @@ def check_case(c, out):
                 IJ = mlmatrix.ml_nonzero_nd(bidx, np.array(bs), lower_tri=lw)
                 got = [[int(i), int(j)] for i, j in zip(IJ[0], IJ[1])]
                 if got != exp:
-                    out.v('ml_nonzero_nd(direct call, L<4) mismatch %s' % firstcols, input=inp, lower_tri=lw,
-                          expected=exp, got=got, nnz=len(c['nz0']))
+                    out.v('ml_nonzero_nd mismatch %s' % firstcols, input=inp, lower_tri=lw,
+                          via='direct call (L < 4)', expected=exp, got=got, nnz=len(c['nz0']))
             except Exception as ex:
                 out.v('exception %s ml_nonzero_nd(direct call)' % type(ex).__name__, input=inp, error=repr(ex))
 
@@ -166,15 +176,16 @@ def check_case(c, out):
         X = A.asmatrix()
         Xd = X.toarray()
         if Xd.shape != (M, N) or not np.array_equal(Xd, den):
-            out.v('MLMatrix.asmatrix mismatch path=%s %s' % (path, firstcols), input=inp, data=c['data'],
-                  expected=c['den'], nnz=len(c['nz0']))
+            out.v(ND_SIG if nd_suspect(S) else 'MLMatrix.asmatrix mismatch path=%s' % path, input=inp,
+                  via='MLMatrix.asmatrix', data=c['data'], expected=c['den'], nnz=len(c['nz0']))
         if int(A.nnz) != len(c['data']):
             out.v('MLMatrix.nnz mismatch', input=inp, got=int(A.nnz))
         Xc = A.asmatrix(format='csc').toarray()
         if not np.array_equal(Xc, Xd):
             out.v('MLMatrix.asmatrix format-dependence', input=inp)
     except Exception as ex:
-        out.v('exception %s MLMatrix.asmatrix path=%s' % (type(ex).__name__, path), input=inp, error=repr(ex))
+        out.v(ND_SIG if nd_suspect(S) else 'exception %s MLMatrix.asmatrix path=%s' % (type(ex).__name__, path),
+              input=inp, via='MLMatrix.asmatrix', error=repr(ex), nnz=len(c['nz0']))
 
     # ---- matrix-vector product
     x = np.array(c['x'], dtype=float)
@@ -183,14 +194,16 @@ def check_case(c, out):
         cls = 'path=%s shape=%s' % (path if L in (2, 3) else 'asmatrix', rect)
 
         def report(out, kind, val):
-            if kind == 'crash':
-                out.v('crash MLMatrix.dot %s' % cls, input=inp, status=val)
-            elif kind == 'exc':
-                out.v('exception %s MLMatrix.dot %s' % (val.split(':')[0], cls), input=inp, error=val)
-            elif len(val) != M or [float(t) for t in c['y']] != val:
-                out.v('MLMatrix.dot mismatch %s' % cls, input=inp, data=c['data'], x=c['x'], expected=c['y'], got=val)
-            else:
+            if kind == 'ok' and len(val) == M and [float(t) for t in c['y']] == val:
                 return False
+            if L >= 4 and nd_suspect(S):
+                sig = ND_SIG
+            elif L in (2, 3) and M != N:
+                sig = 'MLMatrix.dot wrong for a non-square matrix (2-/3-level kernel)'
+            else:
+                sig = 'MLMatrix.dot %s %s' % ('mismatch' if kind == 'ok' else kind, cls)
+            out.v(sig, input=inp, via='MLMatrix.dot', outcome=kind, data=c['data'], x=c['x'], expected=c['y'], got=val,
+                  nnz=len(c['nz0']))
             return True
         if L in (2, 3) and M > N:          # the 2-/3-level kernels write y[I] without bounds checks
             out.deferred.append((A, x, report))
@@ -199,18 +212,7 @@ def check_case(c, out):
                 kind, val = 'ok', [float(t) for t in A.dot(x)]
             except Exception as ex:
                 kind, val = 'exc', '%s: %s' % (type(ex).__name__, ex)
-            bad = report(out, kind, val)
-            # several right-hand sides through the LinearOperator interface
-            if not bad:
-                stage('matmat')
-                try:
-                    X2 = np.column_stack([x, 2 * x + 1])
-                    Y2 = A.dot(X2)
-                    if Y2.shape != (M, 2) or not np.array_equal(Y2, den @ X2):
-                        out.v('MLMatrix.dot(matrix) mismatch %s' % cls, input=inp)
-                except Exception as ex:
-                    out.v('exception %s MLMatrix.dot(matrix) %s' % (type(ex).__name__, cls), input=inp,
-                          error=repr(ex))
+            report(out, kind, val)
 
     # ---- constructor from a matrix (dense / sparse) recovers the data tensor
     stage('from matrix')
@@ -218,14 +220,16 @@ def check_case(c, out):
         for mat in (den, scipy.sparse.csr_matrix(den)):
             A2 = mlmatrix.MLMatrix(structure=S, matrix=mat)
             if A2.data.shape != datashape or not np.array_equal(A2.data, data):
-                out.v('MLMatrix(matrix=) data mismatch path=%s %s' % (path, firstcols), input=inp,
-                      kind=type(mat).__name__)
+                out.v(ND_SIG if nd_suspect(S) else 'MLMatrix(matrix=) data mismatch path=%s' % path, input=inp,
+                      via='MLMatrix(matrix=)', kind=type(mat).__name__, nnz=len(c['nz0']))
                 break
     except Exception as ex:
-        out.v('exception %s MLMatrix(matrix=) path=%s' % (type(ex).__name__, path), input=inp, error=repr(ex))
+        out.v(ND_SIG if nd_suspect(S) else 'exception %s MLMatrix(matrix=) path=%s' % (type(ex).__name__, path),
+              input=inp, via='MLMatrix(matrix=)', error=repr(ex), nnz=len(c['nz0']))
 
     # ---- transposition
     stage('transpose')
+    T = None
     try:
         T = S.transpose()
         if tuple(T.bs) != tuple((b[1], b[0]) for b in bs):
@@ -236,33 +240,40 @@ def check_case(c, out):
             I, J = T.nonzero(lower_tri=lw)
             got = [[int(i), int(j)] for i, j in zip(I, J)]
             if got != c[key]:
-                out.v('transpose().nonzero mismatch path=%s' % path, input=inp, lower_tri=lw, expected=c[key], got=got)
+                out.v(ND_SIG if nd_suspect(T) else 'transpose().nonzero mismatch path=%s' % path, input=inp,
+                      via='transpose().nonzero', lower_tri=lw, expected=c[key], got=got, nnz=len(c['nz0']))
         At = mlmatrix.MLMatrix(structure=T, data=data).asmatrix().toarray()
         if At.shape != (N, M) or not np.array_equal(At, den.T):
-            out.v('transpose().asmatrix mismatch path=%s' % path, input=inp)
+            out.v(ND_SIG if nd_suspect(T) else 'transpose().asmatrix mismatch path=%s' % path, input=inp,
+                  via='transpose().asmatrix', nnz=len(c['nz0']))
         TT = T.transpose()
         if tuple(TT.bs) != bs or any(not np.array_equal(a, b) for a, b in zip(TT.bidx, bidx)):
             out.v('transpose not involutive', input=inp)
     except Exception as ex:
-        out.v('exception %s MLStructure.transpose path=%s' % (type(ex).__name__, path), input=inp, error=repr(ex))
+        out.v(ND_SIG if (T is not None and nd_suspect(T)) else
+              'exception %s MLStructure.transpose path=%s' % (type(ex).__name__, path), input=inp,
+              via='transpose', error=repr(ex), nnz=len(c['nz0']))
 
     # ---- level reordering
     if A is not None:
         stage('reorder')
         for pr in c['perms']:
             ax = tuple(pr['ax'])
+            R = None
             try:
                 R = A.reorder(ax)
                 Mp = int(np.prod([bs[a][0] for a in ax]))
                 Np = int(np.prod([bs[a][1] for a in ax]))
+                if tuple(R.structure.bs) != tuple(bs[a] for a in ax):
+                    out.v('MLMatrix.reorder block sizes mismatch', input=inp, axes=ax)
                 Rd = R.asmatrix().toarray()
-                if tuple(R.structure.bs) != tuple(bs[a] for a in ax) or Rd.shape != (Mp, Np) or \
-                        not np.array_equal(Rd, dense_from(pr['den'], (Mp, Np))):
-                    out.v('MLMatrix.reorder mismatch path=%s' % path, input=inp, axes=ax, data=c['data'],
-                          expected=pr['den'])
+                if Rd.shape != (Mp, Np) or not np.array_equal(Rd, dense_from(pr['den'], (Mp, Np))):
+                    out.v(ND_SIG if nd_suspect(R.structure) else 'MLMatrix.reorder mismatch path=%s' % path, input=inp,
+                          via='MLMatrix.reorder', axes=ax, data=c['data'], expected=pr['den'], nnz=len(c['nz0']))
             except Exception as ex:
-                out.v('exception %s MLMatrix.reorder path=%s' % (type(ex).__name__, path), input=inp, axes=ax,
-                      error=repr(ex))
+                out.v(ND_SIG if (R is not None and nd_suspect(R.structure)) else
+                      'exception %s MLMatrix.reorder path=%s' % (type(ex).__name__, path), input=inp,
+                      via='MLMatrix.reorder', axes=ax, error=repr(ex), nnz=len(c['nz0']))
 
     # ---- per-row / per-column queries, partial Kronecker products
     kden = dense_from(c['kden'], (M, N))
@@ -322,7 +333,8 @@ def check_case(c, out):
             SK = mlmatrix.MLStructure.from_kronecker(As)
             I, J = SK.nonzero()
             if tuple(SK.bs) != bs or pairs(I, J) != sorted((a, b) for a, b in c['nz0']):
-                out.v('from_kronecker mismatch path=%s %s' % (path, firstcols), input=inp)
+                out.v(ND_SIG if nd_suspect(SK) else 'from_kronecker mismatch path=%s' % path, input=inp,
+                      via='from_kronecker().nonzero', nnz=len(c['nz0']))
         except Exception as ex:
             out.v('exception %s from_kronecker' % type(ex).__name__, input=inp, error=repr(ex))
 
@@ -356,8 +368,9 @@ def check_case(c, out):
                 I, J = Sx.nonzero()
                 got = [[int(i), int(j)] for i, j in zip(I, J)]
                 if got != c[key]:
-                    out.v('slice().nonzero mismatch levels=%d %s' % (Sx.L, firstcols if Sx.L >= 4 else ''),
-                          input=inp, split=sp, which=key, expected=c[key], got=got)
+                    out.v(ND_SIG if nd_suspect(Sx) else 'slice().nonzero mismatch levels=%d' % Sx.L,
+                          input=inp, via='slice().nonzero', split=sp, which=key, expected=c[key], got=got,
+                          nnz=len(c['nz0']))
             Sj = Sa.join(Sb)
             if tuple(Sj.bs) != bs or any(not np.array_equal(a, b) for a, b in zip(Sj.bidx, bidx)):
                 out.v('slice+join not identity', input=inp, split=sp)
@@ -383,11 +396,12 @@ def check_kv(c, out, prev):
     try:
         ij = mlmatrix.compute_sparsity_ij(kv1, kv2)
         got = [(int(a), int(b)) for a, b in ij.reshape(-1, 2)]
-        if sorted(got) != exp or len(set(got)) != len(got):
+        bad = sorted(got) != exp or len(set(got)) != len(got)
+        if bad:
             out.v('compute_sparsity_ij mismatch %s' % cls, input=inp, expected=exp, got=sorted(got), size=len(exp))
         S = mlmatrix.MLStructure.from_kvs((kv1,), (kv2,))
         I, J = S.nonzero()
-        if tuple(S.bs) != ((c['n2'], c['n1']),) or pairs(I, J) != exp:
+        if tuple(S.bs) != ((c['n2'], c['n1']),) or (pairs(I, J) != exp and not bad):
             out.v('from_kvs mismatch %s' % cls, input=inp, size=len(exp))
         if prev is not None:
             kv1b, kv2b = make_kv(prev['p1'], prev['kv1']), make_kv(prev['p2'], prev['kv2'])
@@ -395,9 +409,11 @@ def check_kv(c, out, prev):
             I, J = S2.nonzero()
             m2, n2 = c['n2'], c['n1']
             exp2 = sorted((a * m2 + i, b * n2 + j) for a, b in prev['ij'] for i, j in c['ij'])
-            cls2 = 'same-mesh' if (c['samemesh'] and prev['samemesh']) else 'different-meshes'
+            same2 = c['samemesh'] and prev['samemesh']
             if tuple(S2.bs) != ((prev['n2'], prev['n1']), (c['n2'], c['n1'])) or pairs(I, J) != exp2:
-                out.v('from_kvs(2 levels) mismatch %s' % cls2, input=inp, size=len(exp2))
+                out.v('from_kvs(2 levels) mismatch same-mesh' if same2 else
+                      'compute_sparsity_ij mismatch different-meshes', input=inp, via='from_kvs (2 levels)',
+                      prev={'kv1': [prev['p1'], prev['kv1']], 'kv2': [prev['p2'], prev['kv2']]}, size=len(exp2) + 1000)
     except Exception as ex:
         out.v('exception %s compute_sparsity_ij %s' % (type(ex).__name__, cls), input=inp, error=repr(ex))
 
